@@ -77,8 +77,8 @@ Definition is_QName (s : str) : bool :=
 (** [17] PITarget ::= a Name other than x-m-l in any letter case *)
 Definition lower (c : N) : N := if (0x41 <=? c) && (c <=? 0x5A) then c + 32 else c.
 Definition is_xml_ci (s : str) : bool :=
-  match map lower s with
-  | [0x78; 0x6D; 0x6C] => true
+  match s with
+  | [a; b; c] => (lower a =? 0x78) && (lower b =? 0x6D) && (lower c =? 0x6C)
   | _ => false
   end.
 Definition is_PITarget (s : str) : bool := is_Name s && negb (is_xml_ci s).
